@@ -13,3 +13,59 @@ const C16WriteBufSize = bufWriterPoolBufferSize
 // write buffer (the full size when nothing is buffered). Call it only when
 // every goroutine of the bubble is durably blocked.
 func (sc *serverConn) C16WriteBufAvailable() int { return sc.bw.Available() }
+
+// C16QueuedResponses walks the connection's write scheduler (the four
+// schedulers of the package) and counts the queued write requests by the frame
+// they will write, independently of the server's own queuedControlFrames
+// bookkeeping: RST_STREAM frames for stream errors, PING acks and SETTINGS
+// acks — the frames a server owes a peer per received frame without any
+// handler being involved. ok is false for a scheduler the walker does not
+// know. Call it only when every goroutine of the bubble is durably blocked.
+func (sc *serverConn) C16QueuedResponses() (rst, pingAck, settingsAck int, ok bool) {
+	count := func(q *writeQueue) {
+		if q == nil {
+			return
+		}
+		one := func(wr *FrameWriteRequest) {
+			switch wr.write.(type) {
+			case StreamError:
+				rst++
+			case writePingAck:
+				pingAck++
+			case writeSettingsAck:
+				settingsAck++
+			}
+		}
+		for i := q.currPos; i < len(q.currQueue); i++ {
+			one(&q.currQueue[i])
+		}
+		for i := range q.nextQueue {
+			one(&q.nextQueue[i])
+		}
+	}
+	switch ws := sc.writeSched.(type) {
+	case *priorityWriteSchedulerRFC9218:
+		count(&ws.control)
+		for _, m := range ws.streams {
+			count(m.location)
+		}
+	case *roundRobinWriteScheduler:
+		count(&ws.control)
+		for _, q := range ws.streams {
+			count(q)
+		}
+	case *randomWriteScheduler:
+		count(&ws.zero)
+		for _, q := range ws.sq {
+			count(q)
+		}
+	case *priorityWriteSchedulerRFC7540:
+		count(&ws.root.q)
+		for _, n := range ws.nodes {
+			count(&n.q)
+		}
+	default:
+		return 0, 0, 0, false
+	}
+	return rst, pingAck, settingsAck, true
+}
